@@ -28,9 +28,10 @@ RULE = (
 BUDGET = {'quick': (60000, 55), 'thorough': (4_000_000, 600)}
 COMPONENTS = common.COMPONENTS
 ASSUMPTIONS = ['FIFO ready queue', 'future().cancel() is not issued here (C04 covers it)', 'hooks do not raise']
-EXPECTED_COUNTERS = ['probe:kill_while_paused', 'probe:kill_during_step', 'probe:kill_from_listener',
+EXPECTED_COUNTERS = ['probe:listener_removes_itself_in_terminal_notification', 'probe:failed_while_paused', 'probe:kill_while_paused', 'probe:kill_during_step', 'probe:kill_from_listener',
                      'probe:terminated_while_paused', 'final:finished', 'final:excepted', 'final:killed']
 KINDS = ['pause', 'play', 'kill', 'resume']
+KINDS_WITH_FAIL = KINDS + ['fail']
 PROGRAM_CFG = {
     'max_steps': 4,
     'rets': ['value', 'value', 'stop', 'unsuccessful', 'kill', 'raise'],
@@ -62,8 +63,16 @@ def random_case(rng, tier):
     program = programs.gen_process_program(rng, PROGRAM_CFG)
     ticks, notify, _ = common.dry_run(program)
     max_actions = 4 if tier == 'quick' else 6
-    schedule = common.gen_schedule(rng, KINDS, max_actions, ticks, notify)
-    return {'program': program, 'schedule': schedule, 'opts': {'cleanups': rng.randint(1, 3)}}
+    with_fail = rng.random() < 0.3
+    if with_fail:
+        # terminations caused from outside the step: fail() and callbacks that raise
+        program = programs.gen_process_program(rng, dict(PROGRAM_CFG, p_fail_callback=0.5, effects=['out', 'callsoon', 'callsoon']))
+        ticks, notify, _ = common.dry_run(program)
+    schedule = common.gen_schedule(rng, KINDS_WITH_FAIL if with_fail else KINDS, max_actions, ticks, notify)
+    opts = {'cleanups': rng.randint(1, 3)}
+    if rng.random() < 0.3:
+        opts['oneshot'] = True
+    return {'program': program, 'schedule': schedule, 'opts': opts}
 
 
 def shrink(case):
@@ -92,6 +101,8 @@ def _oracle(engine, result, case, drive):
     events = world.events
 
     for record in engine.records:
+        if record.action['act'] == 'fail' and record.pre_live and 'paused' in record.context:
+            result.counters['probe:failed_while_paused'] += 1
         if record.action['act'] == 'kill' and record.pre_live:
             if 'paused' in record.context:
                 result.counters['probe:kill_while_paused'] += 1
@@ -141,7 +152,10 @@ def _oracle(engine, result, case, drive):
             for problem in problems:
                 result.violate('finished_reports', problem.split(' ')[0], problem)
         elif state == 'excepted':
-            raised = world.program_errors[-1] if world.program_errors else None
+            candidates = list(world.program_errors) + list(world.callback_errors)
+            raised = next((c for c in candidates if c is proc.exception()), None)
+            if raised is None and candidates:
+                raised = candidates[-1]
             problems = []
             if future.cancelled() or future.exception() is None:
                 problems.append('future does not raise')
@@ -193,6 +207,12 @@ def _oracle(engine, result, case, drive):
     if terminal != [state]:
         result.violate('terminal_notification', f'{state}:{"+".join(terminal) or "none"}',
                        f'terminal notifications {terminal} for a process that ended {state}')
+    if engine.opts.get('oneshot'):
+        result.counters['probe:listener_removes_itself_in_terminal_notification'] += 1
+        second = [e[2] for e in events if e[0] == 'notify2' and e[2] in ('finished', 'excepted', 'killed')]
+        if second != [state]:
+            result.violate('terminal_notification', f'second:{state}:{"+".join(second) or "none"}',
+                           f'a second listener received terminal notifications {second} for a process that ended {state}')
     for ident, count in engine.cleanups_run.items():
         if count != 1:
             result.violate('cleanups', f'ran:{count}', f'cleanup {ident} ran {count} times')
